@@ -823,6 +823,8 @@ type c01regEntry struct {
 var c01tReflectType = reflect.TypeOf((*reflect.Type)(nil)).Elem()
 var c01tPacketType = reflect.TypeOf(PacketType(0))
 
+var c01lookupMismatch = map[string]string{}
+
 func c01walkRegistry() []c01regEntry {
 	var out []c01regEntry
 	var walk func(v reflect.Value, pts []PacketType, strs []string, depth int)
@@ -884,7 +886,10 @@ func c01walkRegistry() []c01regEntry {
 	walk(root, nil, nil, 0)
 	for _, e := range out {
 		if got := TypeRegistry.GetExtensionType(e.pt, xml.Name{Space: e.ns, Local: e.local}); got != e.typ {
-			panic(fmt.Sprintf("harness: registry walk read (%v, %q, %q) -> %v, but the public lookup gives %v", e.pt, e.ns, e.local, e.typ, got))
+			// what is registered and what the look-up answers differ: reported as a violation by the registry/lookup
+			// scenario (a registered extension that the look-up does not give to the decoders cannot be preserved);
+			// the walk's own reading is what the generator goes by
+			c01lookupMismatch[fmt.Sprintf("%v|%s|%s", e.pt, e.ns, e.local)] = fmt.Sprintf("the registry holds (%v, %q, %q) -> %v, the public look-up gives %v", e.pt, e.ns, e.local, e.typ, got)
 		}
 	}
 	if len(out) == 0 {
